@@ -15,6 +15,7 @@ type Profile struct {
 	Lambdas        bool
 	StrMatch       bool
 	Interp         bool
+	GoKeywordNames bool // some parameters / locals are named like Go keywords (range, map, default, ...)
 	RawStr         bool
 	Tuple3         bool
 	InnerFun       bool
@@ -53,11 +54,11 @@ type Profile struct {
 	MaxDepth       int
 }
 
-var ProfileC01 = Profile{Name: "c01", MulDiv: true, Lambdas: true, StrMatch: true, Interp: true, RawStr: true, Tuple3: true, InnerFun: true, IfOnly: true,
+var ProfileC01 = Profile{Name: "c01", GoKeywordNames: true, MulDiv: true, Lambdas: true, StrMatch: true, Interp: true, RawStr: true, Tuple3: true, InnerFun: true, IfOnly: true,
 	UnionNoDef: true, FieldPerm: true, Partial: true, Pipes: true, HigherOrder: true, CompositeEq: true, UsField: true, SliceLib: true, StringsLib: true,
 	TopVars: true, Shadow: true, LowerFields: true, Recursion: true, StrCompare: true, GenericFns: true, RecGroups: true, Stateful: true, UnitIfElse: true, PipeStmt: true, MoreSlice: true, BareLambda: true, GenericTypes: true, MinFuncs: 3, MaxFuncs: 7, MaxDepth: 4}
 
-var ProfileTiny = Profile{Name: "tinyfo", ShadowProb: 0.3, Partial: true, Pipes: true, SliceLib: true, StringsLib: true, HigherOrder: true, CompositeEq: true, Shadow: true, FieldPerm: true, LetRhsInline: true, IfOnly: true, UnionNoDef: true, MinFuncs: 2, MaxFuncs: 5, MaxDepth: 3}
+var ProfileTiny = Profile{Name: "tinyfo", GoKeywordNames: true, ShadowProb: 0.3, Partial: true, Pipes: true, SliceLib: true, StringsLib: true, HigherOrder: true, CompositeEq: true, Shadow: true, FieldPerm: true, LetRhsInline: true, IfOnly: true, UnionNoDef: true, MinFuncs: 2, MaxFuncs: 5, MaxDepth: 3}
 
 type vinfo struct {
 	name string
@@ -126,12 +127,30 @@ type Gen struct {
 	inTopBlock    bool // generating the outermost block of a top-level function
 	applied       map[string]bool
 	hiddenGlobals map[string]bool // global variables shadowed by the binder of the arm being generated
+	usedKw        map[string]bool
 }
 
 func (g *Gen) feat(f string) { g.Features[f]++ }
 
+// goKeywordNames: Go keywords that are ordinary identifiers in Folang.
+var goKeywordNames = []string{"break", "case", "chan", "const", "continue", "default", "defer", "fallthrough", "for", "func", "go", "goto", "interface", "map", "range", "return", "select", "struct", "switch", "var"}
+
 func (g *Gen) fresh(prefix string) string {
 	g.nameN++
+	if g.P.GoKeywordNames && len(prefix) <= 3 && prefix != "fn" && prefix != "gv" && prefix != "rec" && prefix != "r" && g.R.Chance(0.05) {
+		// a parameter / local / binder named like a Go keyword (each at most once per program)
+		for try := 0; try < 3; try++ {
+			kw := core.Pick(g.R, goKeywordNames)
+			if !g.usedKw[kw] {
+				if g.usedKw == nil {
+					g.usedKw = map[string]bool{}
+				}
+				g.usedKw[kw] = true
+				g.feat("go-keyword-identifier")
+				return kw
+			}
+		}
+	}
 	return fmt.Sprintf("%s%d", prefix, g.nameN)
 }
 
